@@ -179,14 +179,34 @@ def extra_checks(ctx):
         return {"violations": violations, "info": info}
     rp = _replay_request()
     nmax = 2 ** 16 if tier == "thorough" else 2 ** 12
-    model_cache = {}
+    model_cache = {}      # case text -> model output (the model does not depend on the thread count)
+
+    def model_fill(case_texts):
+        todo = [c for c in dict.fromkeys(case_texts) if c not in model_cache]
+        if not todo:
+            return True
+        res, _ = _run(oracle, ["%d %s" % (i, c) for i, c in enumerate(todo)], {}, 1500)
+        if res is None:
+            return False
+        for i, c in enumerate(todo):
+            if str(i) in res:
+                model_cache[c] = res[str(i)]
+        return True
 
     def model_for(cutoff, lines_):
-        key = (cutoff, hash(tuple(lines_)))
-        if key not in model_cache:
-            res, _ = _run(oracle, lines_, {}, 1500)
-            model_cache[key] = res
-        return model_cache[key]
+        texts = [ln.split(" ", 1)[1] for ln in lines_]
+        if not model_fill(texts):
+            return None
+        return {ln.split(" ", 1)[0]: model_cache[t] for ln, t in zip(lines_, texts) if t in model_cache}
+
+    HONEST = [("honest", "honest 1024 s0 0 1 77 1023 512"), ("honest", "honest 512 m3 5 5 400"),
+              ("honest", "honest 8 s0 0 2")]
+    if not rp:
+        # all model results up front, one oracle process per distinct cutoff, in parallel
+        import concurrent.futures
+        cutoffs = sorted({effective_cutoff(v) for v in ENV_VALUES})
+        with concurrent.futures.ThreadPoolExecutor(max_workers=8) as ex:
+            list(ex.map(lambda cu: model_fill([c for _, c in build_lines(cu, nmax, True) + HONEST]), cutoffs))
 
     def known(key, case, desc_extra=""):
         if key in kf:
@@ -221,8 +241,7 @@ def extra_checks(ctx):
         cl = lines_only if lines_only is not None else build_lines(cutoff, nmax, dense=(prof == "release" and threads == "2"))
         if lines_only is None:
             # a few proofs as well, so that the whole pipeline runs under this configuration
-            cl = cl + [("honest", "honest 1024 s0 0 1 77 1023 512"), ("honest", "honest 512 m3 5 5 400"),
-                       ("honest", "honest 8 s0 0 2")]
+            cl = cl + HONEST
         lines = ["%d %s" % (i, c) for i, (_, c) in enumerate(cl)]
         m = model_for(cutoff, lines)
         res, dt = _run(exe, lines, env, 600)
